@@ -350,9 +350,9 @@ func runC11(t *vs.Tape, cfg map[string]string) (res vs.Result) {
 		n := 1 + t.Intn(5, "w.nops")
 		for j := 0; j < n; j++ {
 			var w writerOp
-			wk := []int{6, 3, 3, 2, 1, 1, 1}
+			wk := []int{6, 3, 3, 2, 1, 1, 1, 1, 1}
 			if cfg["writers_only"] == "1" {
-				wk = []int{6, 3, 4, 1, 0, 0, 5}
+				wk = []int{6, 3, 4, 1, 0, 0, 5, 1, 1}
 			}
 			switch t.Weighted("w.kind", wk...) {
 			case 0:
@@ -371,6 +371,10 @@ func runC11(t *vs.Tape, cfg map[string]string) (res vs.Result) {
 				w = writerOp{kind: opSetTolerance, f: poolScannerTol[t.Intn(len(poolScannerTol), "w.tol")]}
 			case 6:
 				w = writerOp{kind: opMarkFP, id: hot[t.Intn(2, "w.id")]}
+			case 7:
+				w = writerOp{kind: opCheckpoint} // memtable flush while readers scan
+			case 8:
+				w = writerOp{kind: opCompact}
 			}
 			ops = append(ops, w)
 		}
@@ -469,6 +473,10 @@ func runC11(t *vs.Tape, cfg map[string]string) (res vs.Result) {
 					s.SetEntropyTolerance(op.f)
 				case opMarkFP:
 					s.MarkFalsePositive(op.id, "n")
+				case opCheckpoint:
+					s.Checkpoint()
+				case opCompact:
+					s.Compact()
 				}
 			}
 		})
